@@ -42,8 +42,11 @@ def main():
     except core.MachineryError as e:
         print(f"MACHINERY FAILURE [{pid}]: {e}", file=sys.stderr)
         return 2
-    except Exception:  # noqa: BLE001
+    except Exception as e:  # noqa: BLE001
         print(traceback.format_exc()[-3000:], file=sys.stderr)
+        if not args.replay and core.raised_in_code_under_test(e):
+            # the package under test raised where the harness did not expect it to: a finding, not a machinery failure
+            ctx.violation({"fail": "raised-in-code-under-test", "exc": type(e).__name__}, {"error": repr(e)[:300], "tb": traceback.format_exc()[-1500:]})
         if ctx.violations and not args.replay:
             # violations were already established (and printed); a later crash of the harness - typically the code under test
             # raising somewhere the harness did not expect - must not turn them into a machinery failure
